@@ -118,6 +118,33 @@ Definition ok_coreRecv : bool :=
   && Nat.eqb (ntok "call:outer:OnRecvPacket" shape_coreRecvPacket) 0
   && Nat.eqb (ntok "defer-commit" shape_coreRecvPacket) 0.
 
+(* the tokens after the first occurrence of t *)
+Fixpoint after_first (t : string) (l : list string) : list string :=
+  match l with [] => [] | x :: r => if String.eqb t x then r else after_first t r end.
+Definition no_error_exit (l : list string) : bool :=
+  Nat.eqb (ntok "return-newerr" l) 0 && Nat.eqb (ntok "return-err" l) 0.
+
+(* attestation handlers (attestation_handler.go): in every handler each error return PRECEDES the first store write, so a
+   handler that fails has written nothing (the discarded branch is empty on this code); OutgoingTxBatchExecuted and
+   SavePendingExecuteClaim have no error return at all — they can only panic, and so can UpdateOracleSetExecuted before
+   its write; a panic is not a tolerated failure (M_Cache.claim_tx) *)
+Definition ok_handlers : bool :=
+  list_eqb shape_AttestationHandler
+    ["case(*types.MsgSendToFxClaim){"; "call:outer:SavePendingExecuteClaim"; "}";
+     "case(*types.MsgSendToExternalClaim){"; "call:outer:OutgoingTxBatchExecuted"; "}";
+     "case(*types.MsgBridgeTokenClaim){"; "call:outer:AddBridgeTokenExecuted"; "return"; "}";
+     "case(*types.MsgOracleSetUpdatedClaim){"; "call:outer:UpdateOracleSetExecuted"; "return"; "}";
+     "case(default){"; "return-newerr"; "}"; "return"]
+  && Nat.ltb 0 (ntok "call:outer:AddBridgeToken" shape_AddBridgeTokenExecuted)
+  && no_error_exit (after_first "call:outer:AddBridgeToken" shape_AddBridgeTokenExecuted)
+  && Nat.eqb (ntok "panic" shape_AddBridgeTokenExecuted) 0
+  && Nat.ltb 0 (ntok "call:outer:SetLastObservedOracleSet" shape_UpdateOracleSetExecuted)
+  && no_error_exit (after_first "call:outer:SetLastObservedOracleSet" shape_UpdateOracleSetExecuted)
+  && Nat.eqb (ntok "panic" (after_first "call:outer:SetLastObservedOracleSet" shape_UpdateOracleSetExecuted)) 0
+  && no_error_exit shape_OutgoingTxBatchExecuted && Nat.ltb 0 (ntok "panic" shape_OutgoingTxBatchExecuted)
+  && no_error_exit shape_SavePendingExecuteClaim.
+
 Definition source_shapes_ok : bool :=
+  ok_handlers &&
   ok_processAttestation && ok_TryAttestation && ok_BridgeCallHandler && ok_BridgeCallEvm && ok_refund && ok_ExecuteClaim
   && ok_gov && ok_mwOnRecv && ok_relayOnRecv && ok_ack_timeout && ok_coreRecv.
